@@ -15,7 +15,7 @@ Theorem C08_emitters_are_conforming_frames :
          '(ms, type, meta, seq, n', pl') := emit_descr p kind ftype fseq n val pl in
           fst (emit p kind ftype fseq addr n val pl) =
           frame_wire p (encode_header p ms type meta seq (if kind =? 30 then 0 else addr) n' (crc pl')) pl'.
-Proof. exact emit_eq. Qed.
+Proof. exact (@emit_eq). Qed.
 Print Assumptions C08_emitters_are_conforming_frames.
 
 (* with arguments in range, the frame is conforming: existing type/code pair, field ranges, payload size = block size in the frame's word size *)
@@ -25,7 +25,7 @@ Theorem C08_emitters_conform :
          let
          '(ms, type, meta, seq, n', pl') := emit_descr p kind ftype fseq n val pl in
           conforming p ms type meta seq (if kind =? 30 then 0 else addr) n' pl' /\ (type = T_META -> n' = 0).
-Proof. exact emit_conforming. Qed.
+Proof. exact (@emit_conforming). Qed.
 Print Assumptions C08_emitters_conform.
 
 (* the receiver's header parser reads back type, option bits, code, sequence number, address, block size and both checksums *)
@@ -38,7 +38,7 @@ Theorem C08_header_round_trip :
          plc < 65536 ->
          parse_header (encode_header p ms type meta seq addr n plc ++ pl) =
          inr (emitted_frame p ms type meta seq addr n plc pl).
-Proof. exact parse_emitted. Qed.
+Proof. exact (@parse_emitted). Qed.
 Print Assumptions C08_header_round_trip.
 
 (* and the payload checks pass: the frame is accepted with exactly the payload octets that were sent *)
@@ -47,7 +47,7 @@ Theorem C08_frame_accepted :
          conforming p ms type meta seq addr n pl ->
          parse_frame (encode_header p ms type meta seq addr n (crc pl) ++ pl) =
          inr (emitted_frame p ms type meta seq addr n (crc pl) pl).
-Proof. exact parse_frame_emitted. Qed.
+Proof. exact (@parse_frame_emitted). Qed.
 Print Assumptions C08_frame_accepted.
 
 (* framing round trip on both transports: SLIP (serial) and varint length prefix (TCP), any payload octets incl. SLIP control characters, any rest of stream *)
@@ -56,7 +56,7 @@ Theorem C08_deframe :
          N.of_nat (length (hdr ++ pl)) < 2 ^ 64 ->
          exists calls' : N,
            deframe p (plain_src oct (frame_wire p hdr pl ++ r) calls) = Some (None, hdr ++ pl, plain_src oct r calls').
-Proof. exact deframe_frame_wire. Qed.
+Proof. exact (@deframe_frame_wire). Qed.
 Print Assumptions C08_deframe.
 
 (* the library's receiver on the same transport hands out exactly the emitted frame, sends nothing, and leaves the rest of the stream *)
@@ -79,7 +79,7 @@ Theorem C08_received_by_own_receiver :
                rr_reply := [];
                rr_rest := plain_src oct r calls'
              |}.
-Proof. exact recv_emitted. Qed.
+Proof. exact (@recv_emitted). Qed.
 Print Assumptions C08_received_by_own_receiver.
 
 (* header ++ payload equal the octets of the independent reading: big-endian fields, CRC-16/ARC header and payload checksums exactly on serial links, payload checksum only with payload *)
@@ -89,7 +89,7 @@ Theorem C08_wire_is_what_the_document_prescribes :
          (type = T_META -> n = 0) ->
          encode_header p ms type meta seq addr n (crc pl) ++ pl =
          spec_raw (emitted_fields p ms type meta seq addr n pl) pl.
-Proof. exact emitted_is_spec. Qed.
+Proof. exact (@emitted_is_spec). Qed.
 Print Assumptions C08_wire_is_what_the_document_prescribes.
 
 (* successive requests of a session carry sequence numbers increasing by one modulo 2^16 *)
@@ -101,7 +101,7 @@ Theorem C08_sequence_numbers :
           nth_error rs k = Some r ->
           nth_error (fst (do_requests p rs)) k =
           Some (fst (do_request (with_seq p ((g_seq p + N.of_nat k) mod 65536)) r))).
-Proof. exact requests_sequence. Qed.
+Proof. exact (@requests_sequence). Qed.
 Print Assumptions C08_sequence_numbers.
 
 
